@@ -50,6 +50,9 @@ CanonPos(l) == CHOOSE i \in DOMAIN Canon : Canon[i] = l
 IsDimSeq(s) == /\ \A i \in DOMAIN s : s[i] \in AllLetters
                /\ \A i, j \in DOMAIN s : s[i] = s[j] => i = j
 
+\* no two letters cut from the same base dimension (label tuples would be ambiguous)
+RootsDistinct(S) == \A l1, l2 \in S : RootOf[l1] = RootOf[l2] => l1 = l2
+
 InjSeqs(S, n) == {s \in [1..n -> S] : \A i, j \in 1..n : s[i] = s[j] => i = j}
 
 \* every ordered subset (every subset in every storage order) of a letter set
